@@ -27,6 +27,9 @@ func (node *StreamJoin) Typecheck(ctx context.Context, env physical.Environment,
 	for k, v := range leftMapping {
 		// Put all mapped variables into one map.
 		// Left mapping takes precedence. Duplicates get overwritten.
+		if _, ok := rightMapping[k]; ok {
+			panic(fmt.Errorf("column '%s' is present in both join inputs: give the joined tables distinct aliases", k))
+		}
 		// TODO: Duplicates should be handled well.
 		rightMapping[k] = v
 	}
@@ -70,6 +73,9 @@ func (node *OuterJoin) Typecheck(ctx context.Context, env physical.Environment, 
 	for k, v := range leftMapping {
 		// Put all mapped variables into one map.
 		// Left mapping takes precedence. Duplicates get overwritten.
+		if _, ok := outMapping[k]; ok {
+			panic(fmt.Errorf("column '%s' is present in both join inputs: give the joined tables distinct aliases", k))
+		}
 		// TODO: Duplicates should be handled well.
 		outMapping[k] = v
 	}
@@ -161,6 +167,9 @@ func (node *LookupJoin) Typecheck(ctx context.Context, env physical.Environment,
 
 	for k, v := range leftMapping {
 		// Put all mapped variables into one map.
+		if _, ok := rightMapping[k]; ok {
+			panic(fmt.Errorf("column '%s' is present in both join inputs: give the joined tables distinct aliases", k))
+		}
 		// Left mapping takes precedence. Duplicates get overwritten.
 		rightMapping[k] = v
 	}
